@@ -95,7 +95,7 @@ class OperatorTemplate(AbstractBaseTemplate):
         if variables:
             variables = _update_variables(self.variables, variables)
         else:
-            variables = self.variables
+            variables = dict(self.variables)  # variables the new equations do not use are dropped from the copy only
 
         rogue_variables = set()
         for var in variables:
